@@ -164,6 +164,46 @@ fn high_level_cycles(len: usize, st: &mut Stats, sink: &Sink) {
     }
 }
 
+/// f64, moves of one tick: every sequence up to `depth` over positive values that differ by relative
+/// amounts between 2e-12 and 4e-9 (and one ordinary move). LnReturn and Drawdown are ratios of
+/// consecutive values, so their natural scale here is the size of the move itself, not 1: the
+/// comparison is to 1e-12 absolute plus 1e-9 of the exact answer (the f64 evaluation of
+/// ln(x_t/x_(t-1)) is accurate to a few 1e-16).
+fn ticks(kind: Kind, depth: usize, st: &mut Stats, sink: &Sink) {
+    let spec = crate::spec::mk(kind, 0, Spec::echo());
+    let alpha = [250.0, 250.000001, 249.999999, 250.0000000005, 100.0];
+    let Some(root) = build_or_report::<f64>("C13", &spec, sink) else { return };
+    st.configs += 1;
+    crate::explore::tree::<f64, Dyn<f64>>(
+        &root,
+        &alpha,
+        depth,
+        st,
+        &mut |v, hist, st| {
+            v.update(*hist.last().unwrap());
+            st.transitions += 1;
+            let got = v.last();
+            let want = match kind {
+                Kind::LnReturn => refs::ln_return(hist),
+                _ => Some(refs::drawdown(hist)),
+            };
+            st.oracle_evals += 1;
+            st.out(got);
+            let ok = match (got, want) {
+                (None, None) => true,
+                (Some(g), Some(w)) => g.is_finite() && (g - w).abs() <= 1e-12 + 1e-9 * w.abs(),
+                _ => false,
+            };
+            if !ok {
+                sink.push(Violation::new("C13", &spec, if kind == Kind::LnReturn { "ln-return" } else { "max-drawdown" }, "f64", hist, format!("moves of one tick: the view reports {:?} but the definition gives {:?}", got, want)).tag("tick_sized_moves"));
+                return crate::explore::Step::Prune;
+            }
+            crate::explore::Step::Go
+        },
+        &mut |hist, msg| sink.push(Violation::new("C13", &spec, "panicked", "f64", hist, msg)),
+    );
+}
+
 /// f32, streams longer than 2^24 values on which every partial sum is exactly representable: a
 /// level L with one excursion pair (L+d, L-d) every P values. The exact mean is L whenever the pairs
 /// are complete and the exact sum of squared deviations is 2 d^2 per pair, so the reference needs no
@@ -278,6 +318,15 @@ pub fn run(ctx: &Ctx) -> CheckOutput {
         f32_past_2_24(len, &mut st, &sink);
         JobOut { stats: st, viols: sink.take(), samples: vec![json!({"explorer":"LONG","scalar":"f32","view":"WelfordRolling","driver":"level with one exactly representable excursion pair per period, two shapes","steps":len})] }
     }));
+    for kind in [Kind::LnReturn, Kind::Drawdown] {
+        let d = if quick { 5 } else { 7 };
+        jobs.push(Box::new(move || {
+            let mut st = Stats::default();
+            let sink = Sink::new();
+            ticks(kind, d, &mut st, &sink);
+            JobOut { stats: st, viols: sink.take(), samples: vec![json!({"explorer":"TREE","scalar":"f64","view":format!("{:?}", kind),"alphabet":"250, 250.000001, 249.999999, 250.0000000005, 100","depth":d,"tolerance":"1e-12 + 1e-9*|exact|"})] }
+        }));
+    }
     let o = run_jobs(jobs, ctx.seed);
     CheckOutput {
         stats: o.stats,
